@@ -73,6 +73,22 @@ thread_local! {
     static CLIENT: RefCell<Option<(usize, Arc<Shared>)>> = const { RefCell::new(None) };
 }
 
+/// In-build site at which each client is currently parked (index + 1; 0 = not parked inside build()).
+static PARKED_SITE: [std::sync::atomic::AtomicUsize; 64] = [const { std::sync::atomic::AtomicUsize::new(0) }; 64];
+/// Sites found to lie inside a critical section of the code under test (a lock is held there): parking a
+/// client at such a site only makes the others wait for it, so the site is switched off for the rest of the
+/// process. Always empty on code that holds no lock across a hook point.
+pub static CRITICAL_SITES: AtomicU64 = AtomicU64::new(0);
+
+fn note_lock_handover() {
+    for p in PARKED_SITE.iter() {
+        let v = p.load(Ordering::SeqCst);
+        if v > 0 {
+            CRITICAL_SITES.fetch_or(1u64 << (v - 1), Ordering::SeqCst);
+        }
+    }
+}
+
 fn site_index(site: &str) -> Option<usize> {
     SITES.iter().position(|s| *s == site)
 }
@@ -82,8 +98,10 @@ pub fn point_hook(site: &'static str) {
     if let Some((id, shared)) = ctx {
         if let Some(ix) = site_index(site) {
             shared.site_hits[ix].fetch_add(1, Ordering::Relaxed);
-            if shared.site_enabled[ix] {
+            if shared.site_enabled[ix] && CRITICAL_SITES.load(Ordering::Relaxed) & (1u64 << ix) == 0 {
+                PARKED_SITE[id % 64].store(ix + 1, Ordering::SeqCst);
                 shared.sched.yield_point(id, true);
+                PARKED_SITE[id % 64].store(0, Ordering::SeqCst);
             }
         }
     }
@@ -237,8 +255,13 @@ pub fn execute_run(spec: &RunSpec) -> RunResult {
     let n = spec.clients.len();
     let est_steps: u64 = spec.clients.iter().map(|c| c.ops.len() as u64).sum::<u64>() * 6 + 4;
     let all_sites = spec.sites.iter().any(|s| s == "*");
+    let mut sched = Sched::new(n, spec.mailboxes, &spec.sched, est_steps);
+    sched.on_lock_handover = Some(note_lock_handover);
+    for p in PARKED_SITE.iter() {
+        p.store(0, Ordering::SeqCst);
+    }
     let shared = Arc::new(Shared {
-        sched: Sched::new(n, spec.mailboxes, &spec.sched, est_steps),
+        sched,
         events: Mutex::new(vec![]),
         mailboxes: Mutex::new((0..spec.mailboxes).map(|_| None).collect()),
         site_enabled: SITES
